@@ -61,8 +61,11 @@ def main():
             for f in os.listdir(rd):
                 if any(f.startswith(p + "-") for p in props):
                     os.remove(os.path.join(rd, f))
+    rp = os.path.join(sd, "result.json")
+    prev = json.load(open(rp)).get("results", {}) if os.path.exists(rp) else {}
+    prev.update(results)
     json.dump({"repo_head": subprocess.check_output(["git", "-C", "/repo", "rev-parse", "--short", "HEAD"]).decode().strip(),
-               "results": results}, open(os.path.join(sd, "result.json"), "w"), indent=1)
+               "results": prev}, open(rp, "w"), indent=1)
     return 0 if all(v["detected"] for v in results.values()) else 1
 
 
